@@ -628,7 +628,9 @@ class IPPO(MultiAgentRLAlgorithm):
         dones = dones.squeeze()
         values = values.squeeze()
         next_state = vectorize_experiences_by_agent(next_state, dim=0)
-        next_done = vectorize_experiences_by_agent(next_done)
+        # The final flags have no time axis: stack the agents first (like next_state) so that
+        # they flatten agent-major like the per-step columns
+        next_done = vectorize_experiences_by_agent(next_done, dim=0)
 
         # Bootstrapping returns using GAE advantage estimation
         dones = dones.long()
